@@ -2,7 +2,7 @@
 //
 // Hand-written driver that was linked against the real, unmodified kyrodb-engine crate
 // (Cargo dependency `kyrodb-engine = { path = "/repo/engine" }`, plus tempfile, uuid, serde_json)
-// during the design phase to confirm that five contract obligations which cannot hold on the
+// during the design phase to confirm that seven contract obligations which cannot hold on the
 // pinned tree correspond to failing histories of the real code.  Output observed on the pinned
 // tree is quoted above each scenario.  These scenarios become the replay files of the
 // corresponding findings (see DESIGN.md section 7).
@@ -135,6 +135,44 @@ fn strict_fallback_loss() {
     }
 }
 
+// F-C13-b  (C13)  truncation inside a frame of a rotated (non-final) segment is read as a torn tail
+//   live=[1, 2, 3, 4, 5, 6] segments=3
+//   STRICT RECOVERY SUCCEEDED with docs [1, 2, 4, 5, 6]
+fn truncated_older_segment() {
+    let dir = tempfile::tempdir().unwrap();
+    let b = HnswBackend::with_persistence(2, DistanceMetric::Euclidean, vec![], vec![], 100, dir.path(), FsyncPolicy::Always, 0, 150).unwrap();
+    for i in 1..=6u64 {
+        b.insert(i, vec![i as f32, 1.0], HashMap::new()).unwrap();
+    }
+    drop(b);
+    let m = Manifest::load(dir.path().join("MANIFEST")).unwrap();
+    let first = dir.path().join(&m.wal_segments[0]);
+    let len = std::fs::metadata(&first).unwrap().len();
+    let f = std::fs::OpenOptions::new().write(true).open(&first).unwrap();
+    f.set_len(len - 5).unwrap();
+    match HnswBackend::recover(2, DistanceMetric::Euclidean, dir.path(), 100, FsyncPolicy::Always, 0, 150, MetricsCollector::new()) {
+        Ok(r) => {
+            let mut v = r.scan(|_| true);
+            v.sort();
+            println!("  STRICT RECOVERY SUCCEEDED with docs {:?}", v);
+        }
+        Err(e) => println!("  recovery refused: {e:#}"),
+    }
+}
+
+// F-C04-a  (C04)  a drain makes a mirror-only entry durable (needs a planted entry; intended repair behaviour)
+//   before drain: exists(9)=false cold len=1
+//   after  drain: exists(9)=true cold len=2
+fn drain_resurrects() {
+    let cfg = TieredEngineConfig { hot_tier_max_size: 100, hot_tier_hard_limit: 200, hnsw_max_elements: 100, embedding_dimension: 2, hnsw_distance: DistanceMetric::Euclidean, data_dir: None, ..Default::default() };
+    let e = TieredEngine::new(Box::new(LruCacheStrategy::new(10)), Arc::new(QueryHashCache::new(10, 0.9)), vec![], vec![], cfg).unwrap();
+    e.insert(1, vec![1.0, 0.0], HashMap::new()).unwrap();
+    e.hot_tier().insert(9, vec![0.0, 1.0], HashMap::new());
+    println!("  before drain: exists(9)={} cold len={}", e.exists(9), e.cold_tier().len());
+    e.flush_hot_tier(true).unwrap();
+    println!("  after  drain: exists(9)={} cold len={}", e.exists(9), e.cold_tier().len());
+}
+
 fn main() {
     failed_overwrite(DistanceMetric::Euclidean, vec![1.0, 0.0], vec![f32::NAN, 0.0]);
     failed_overwrite(DistanceMetric::Cosine, vec![1.0, 0.0], vec![3e19, 3e19]);
@@ -143,4 +181,6 @@ fn main() {
     prune_parent();
     filtered_delete_stale_hot();
     strict_fallback_loss();
+    truncated_older_segment();
+    drain_resurrects();
 }
